@@ -951,6 +951,12 @@ class SymChar(Sym):
     def encode(self, *a):
         return SymStr([self]).encode(*a)
 
+    def __getattr__(self, n):
+        # a one-character string has every str method: delegate to the string model
+        if n.startswith("__") or n == "code":
+            raise AttributeError(n)
+        return getattr(SymStr([self]), n)
+
     def __repr__(self):
         return "SymChar(%s)" % self.code.t
 
